@@ -106,8 +106,8 @@ Definition h2_loop_witness : bytes :=
   ser_frame (AHeaders 1 true false None [130] None) ++ ser_frame (ACont 1 false [132]) ++ ser_frame (ACont 1 true [134]).
 
 Theorem c08_h2_reader_loop_refuted_before_repair :
-  read_frame_gen true false true fs_new h2_loop_witness = RFuel /\
-  (exists f n st, read_frame_gen true true true fs_new h2_loop_witness = ROk f n st).
+  read_frame_gen psw_ok false true fs_new h2_loop_witness = RFuel /\
+  (exists f n st, read_frame_gen psw_ok true true fs_new h2_loop_witness = ROk f n st).
 Proof. split; [vm_compute; reflexivity | do 3 eexists; vm_compute; reflexivity]. Qed.
 
 (* the HTTP/2 client refuses SETTINGS values outside the RFC ranges (read from MClientConn.processSettings):
